@@ -13,4 +13,3 @@ func readAll(path string) []byte {
 	}
 	return b
 }
-
